@@ -201,3 +201,64 @@ def run_holders_tie(ctx, tied):
                              {"kind": "selfref-disagreement"})
         L.unload_module(mod_self)
     del meta
+
+
+# ---------------------------------------------------------------------------
+# which classes own __mashumaro_to_dict__ after the module is executed (C15Nailed.v over K115a)
+# ---------------------------------------------------------------------------
+
+FLAGS_CASE_TYPE = "env * list string * list ty * list (string * bool)"
+FLAGS_OK_FUN = ("fun c : (" + FLAGS_CASE_TYPE + ") => match c with (E, mx, roots, ex) => flags_ok E mx roots ex end")
+
+
+def run_flags_tie(ctx, tied):
+    """tied: (sc, vals, src, mod) of scenarios inside the model.  A FRESH module is executed from the same source (no
+    call has been made on it) and the `__dict__` of every dataclass is read; the model executes the class statements of
+    the mixin classes and of the wrappers over the kernel's decisions, starting from a table in which nobody owns a method."""
+    defs, cases, descr = [], [], []
+    pred_bad = []
+    for n, (sc, vals, src, mod) in enumerate(tied):
+        if sc.lazy:
+            ctx.hist("flags_tie", "skipped:lazy_compilation (methods appear at the first call)")
+            continue
+        try:
+            fresh = L.load_module(src, f"flags_{n}")
+        except Exception as e:      # noqa: BLE001
+            ctx.not_shown("flags tie: module does not load", repr(e)[:200])
+            continue
+        try:
+            real = {c.name: "__mashumaro_to_dict__" in getattr(fresh, c.name).__dict__ for c in sc.classes}
+        finally:
+            L.unload_module(fresh)
+        d, sc.dialect = sc.dialect, None
+        try:
+            pred = L.predicted_has_method(sc)       # (without the dialect-call refinement, which is not about __dict__)
+        finally:
+            sc.dialect = d
+        if pred != real:
+            pred_bad.append((str(sc.sid), {k: (pred[k], real[k]) for k in real if pred[k] != real[k]}))
+        env_name = f"N{n}"
+        defs.append(f"Definition {env_name} : env :=\n  {L.coq_env(sc, has={c.name: False for c in sc.classes})}.")
+        order = [c for h in ("A", "B", None) for c in sc.classes if c.home == h]
+        mixins = "[" + "; ".join(vlib.coq_str(c.name) for c in order if c.mixin) + "]"
+        roots = "[" + "; ".join(L.coq_ty(t) for t in sc.roots) + "]"
+        ex = "[" + "; ".join(f'({vlib.coq_str(k)}, {"true" if v else "false"})' for k, v in real.items()) + "]"
+        cases.append(f"({env_name}, {mixins}, {roots}, {ex})")
+        descr.append(f"{sc.sid}: real={real}")
+        ctx.count(("flags", str(sc.sid)))
+        ctx.hist("flags_tie", f"plain classes with an installed method={sum(1 for c in sc.classes if real[c.name] and not c.mixin)}")
+    if pred_bad:
+        ctx.not_shown("c15lib.predicted_has_method differs from the real class __dict__s", str(pred_bad[:3])[:600])
+    if not cases:
+        return
+    bad, log = vlib.coq_bad_idx("c15_flags", "C15Model C15Proofs C15Site C15Holders C15Nailed", "From VerifGen Require Import K115a.",
+                                "\n".join(defs) + "\n", cases, FLAGS_OK_FUN, FLAGS_CASE_TYPE, shard=400, timeout=1800,
+                                needs=["theories/C15Nailed.vo"])
+    name = "installed-method flags model-vs-impl (class statements over K115a vs class __dict__ of a fresh module)"
+    if bad is None:
+        ctx.correspondence(name, len(cases), -1, log)
+        ctx.not_shown("correspondence " + name, log)
+    else:
+        ctx.correspondence(name, len(cases), len(bad), "; ".join(descr[k][:300] for k in bad[:4]))
+        if bad:
+            ctx.not_shown("correspondence " + name, "; ".join(descr[k][:300] + " | " + cases[k][:400] for k in bad[:3]))
